@@ -128,14 +128,41 @@ func someNumber(r *rng) numSpec {
 		}
 		return testNumber(r, blockLengths[r.intn(len(blockLengths))], 0, r.rangeInt(-5, 8), 0)
 	case 6:
-		return numSpec{desc: fmt.Sprintf("S:%d:%d", 1+r.intn(50), 1+r.intn(9)), length: -2, allV: true}
+		return rootNumber(r, "S")
 	case 7:
-		return numSpec{desc: fmt.Sprintf("C:%d:%d", 1+r.intn(50), 1+r.intn(9)), length: -2, allV: true}
+		return rootNumber(r, "C")
 	case 8:
 		return numSpec{desc: fmt.Sprintf("R:%d:%d", 1+r.intn(500), 1+r.intn(99)), length: -2, allV: true}
 	default:
 		return numSpec{desc: "Z", length: 0, allV: true}
 	}
+}
+
+// rootNumber: a root through one of the four constructors (second letter of the kind: i int64,
+// r int64 fraction, b *big.Int, none *big.Rat), perfect powers included — the radicands whose
+// roots are finite decimals are the ones a constructor is tempted to special-case
+func rootNumber(r *rng, kind string) numSpec {
+	num, den := 1+r.intn(50), 1+r.intn(9)
+	if r.coin(30) {
+		k := 1 + r.intn(40)
+		num = k * k
+		if kind == "C" {
+			num *= k
+		}
+		if r.coin(30) {
+			num *= []int{100, 1000, 1000000}[r.intn(3)]
+		}
+		if r.coin(70) {
+			den = 1
+		}
+	} else if r.coin(40) {
+		den = 1
+	}
+	ctors := []string{"", "r"}
+	if den == 1 {
+		ctors = []string{"", "r", "i", "i", "b"}
+	}
+	return numSpec{desc: fmt.Sprintf("%s%s:%d:%d", kind, r.pickS(ctors), num, den), length: -2, allV: true}
 }
 
 // hinfo: what the generator knows about a handle (used only to keep traversals materialisable)
